@@ -33,6 +33,7 @@ type Sel struct {
 	On     string `json:"on,omitempty"`
 	Spread string `json:"spread,omitempty"`
 	Dir    *Dir   `json:"dir,omitempty"`
+	Dir2   *Dir   `json:"dir2,omitempty"` // a second directive of the other name (@skip and @include on one node)
 }
 
 type FragDef struct {
@@ -206,7 +207,8 @@ type qgen struct {
 	stats   map[string]int
 	pool    map[string][]string // object type -> names of reusable named fragments on it
 	aliases map[string]int // (field, arguments) -> alias number: injective, so equal aliases never conflict
-	dups    bool // this query repeats aliases with different sub-selections (then it carries no directives)
+	dups    bool // this query repeats aliases with different sub-selections
+	nodirs  bool // this query carries no directives
 }
 
 type Enum struct {
@@ -368,9 +370,16 @@ func (g *qgen) selsFor(typ string, depth int) []Sel {
 	for _, s := range out {
 		count[s.Alias]++
 	}
+	_ = count
+	pd := 15
+	if g.dups {
+		pd = 8
+	}
 	for i := range out {
-		if !g.dups && count[out[i].Alias] == 1 && out[i].Name != "__typename" && r.Chance(15) {
-			out[i].Dir = g.dir()
+		// on any field selection, __typename and repeated aliases included: a selection excluded by its own
+		// directives counts as absent, whatever else carries the same alias
+		if r.Chance(pd) {
+			g.dirs(&out[i])
 		}
 	}
 	// named fragments from a pool: a fragment is spread at several places of the query, and several fragments on
@@ -395,6 +404,9 @@ func (g *qgen) selsFor(typ string, depth int) []Sel {
 			}
 			if name != "" {
 				sp := Sel{Spread: name}
+				if r.Chance(15) {
+					g.dirs(&sp)
+				}
 				if r.Bool() {
 					out = append([]Sel{sp}, out...) // the spread's selections come first for their aliases
 				} else {
@@ -409,29 +421,16 @@ func (g *qgen) selsFor(typ string, depth int) []Sel {
 		cut := 1 + r.Intn(len(out)-1)
 		inner := append([]Sel{}, out[cut:]...)
 		out = out[:cut]
-		// a directive inside the fragment must not meet the same alias outside: keep it simple and drop them
-		outside := map[string]bool{}
-		for _, s := range out {
-			outside[s.Alias] = true
-		}
-		for i := range inner {
-			if outside[inner[i].Alias] {
-				inner[i].Dir = nil
-			}
-		}
-		for i := range out {
-			for _, s := range inner {
-				if s.Alias == out[i].Alias {
-					out[i].Dir = nil
-				}
-			}
-		}
 		if r.Chance(40) {
 			name := fmt.Sprintf("F%d", len(g.frags))
 			g.frags = append(g.frags, FragDef{Name: name, On: typ, Subs: inner})
-			out = append(out, Sel{Spread: name})
+			sp := Sel{Spread: name}
+			if r.Chance(20) {
+				g.dirs(&sp)
+			}
+			out = append(out, sp)
 			if r.Chance(30) {
-				out = append(out, Sel{Spread: name}) // spread twice
+				out = append(out, Sel{Spread: name}) // spread twice (the directives of one spread are its own)
 			}
 			g.stats["named-fragment"]++
 		} else {
@@ -440,22 +439,32 @@ func (g *qgen) selsFor(typ string, depth int) []Sel {
 				fr.Subs = []Sel{{On: typ, Subs: inner}} // nested
 				g.stats["nested-fragment"]++
 			}
-			if !g.dups && r.Chance(20) {
-				safe := true
-				for _, s := range inner {
-					if outside[s.Alias] {
-						safe = false
-					}
-				}
-				if safe {
-					fr.Dir = g.dir()
-				}
+			if r.Chance(20) {
+				g.dirs(&fr)
 			}
 			out = append(out, fr)
 			g.stats["inline-fragment"]++
 		}
 	}
 	return out
+}
+
+// dirs puts @skip or @include on the selection, sometimes both.
+func (g *qgen) dirs(s *Sel) {
+	if g.nodirs {
+		return
+	}
+	s.Dir = g.dir()
+	if g.r.Chance(25) {
+		d := g.dir()
+		if s.Dir.Name == "skip" {
+			d.Name = "include"
+		} else {
+			d.Name = "skip"
+		}
+		s.Dir2 = d
+		g.stats["both-directives"]++
+	}
 }
 
 func (g *qgen) dir() *Dir {
@@ -478,12 +487,20 @@ func (g *qgen) unionSels(un string, depth int) []Sel {
 	// gateway -- which pushes __typename into a fragment per member -- renders {"__typename": ...}.
 	all := false
 	if r.Chance(55) {
-		out = append(out, Sel{Alias: "__typename", Name: "__typename"})
+		tn := Sel{Alias: "__typename", Name: "__typename"}
+		if r.Chance(15) {
+			g.dirs(&tn)
+		}
+		out = append(out, tn)
 		all = true
 	}
 	for _, m := range fedgen.UnionMembers[un] {
 		if all || r.Chance(70) {
-			out = append(out, Sel{On: m, Subs: g.selsFor(m, depth)})
+			fr := Sel{On: m, Subs: g.selsFor(m, depth)}
+			if !all && r.Chance(10) {
+				g.dirs(&fr)
+			}
+			out = append(out, fr)
 		}
 	}
 	if len(out) == 0 {
@@ -559,9 +576,9 @@ func selsText(sels []Sel) string {
 		}
 		switch {
 		case s.Spread != "":
-			b.WriteString("..." + s.Spread)
+			b.WriteString("..." + s.Spread + dirText(s.Dir) + dirText(s.Dir2))
 		case s.On != "":
-			b.WriteString("... on " + s.On + dirText(s.Dir) + " { " + selsText(s.Subs) + " }")
+			b.WriteString("... on " + s.On + dirText(s.Dir) + dirText(s.Dir2) + " { " + selsText(s.Subs) + " }")
 		default:
 			if s.Alias != "" && s.Alias != s.Name {
 				b.WriteString(s.Alias + ": ")
@@ -577,7 +594,7 @@ func selsText(sels []Sel) string {
 				}
 				b.WriteString(")")
 			}
-			b.WriteString(dirText(s.Dir))
+			b.WriteString(dirText(s.Dir) + dirText(s.Dir2))
 			if len(s.Subs) > 0 {
 				b.WriteString(" { " + selsText(s.Subs) + " }")
 			}
@@ -641,7 +658,7 @@ func genCase(r *vh.Rng) Case {
 			c.Selector[k] = o[r.Intn(len(o))]
 		}
 	}
-	g := &qgen{r: r, u: u, vars: map[string]bool{}, stats: map[string]int{}, aliases: map[string]int{}, pool: map[string][]string{}, dups: r.Chance(55)}
+	g := &qgen{r: r, u: u, vars: map[string]bool{}, stats: map[string]int{}, aliases: map[string]int{}, pool: map[string][]string{}, dups: r.Chance(55), nodirs: r.Chance(45)}
 	c.Query = g.selsFor("Query", 2+r.Intn(3))
 	c.Frags = g.frags
 	c.Vars = g.vars
